@@ -16,7 +16,7 @@ class Interp(ExecMixin, LoopMixin, EvalMixin, CallMixin, MethodMixin, InterpBase
 
 
 class Path(object):
-    __slots__ = ("entry", "events", "outcome", "pc", "dirty", "wrote", "state")
+    __slots__ = ("entry", "events", "outcome", "pc", "dirty", "wrote", "state", "handler")
 
     def __init__(self, entry, state, outcome):
         self.entry = entry
@@ -26,6 +26,7 @@ class Path(object):
         self.dirty = state.dirty
         self.wrote = state.wrote
         self.state = state
+        self.handler = None
 
     def flat(self, into_loops=True):
         """all events, descending into every loop alternative (each
@@ -57,18 +58,46 @@ class Model(object):
     """paths of all entry points, computed on demand and cached"""
 
     def __init__(self, repo=None):
+        from . import names as namesmod
         self.repo = repo or Repo()
+        self.timing = {}
+        # bootstrap: run makeService once without any slot roles and read the
+        # roles of Server's slots off the values its constructor stores
         self.interp = Interp(self.repo)
+        self._paths = {}
+        self._timer = None
+        slots = {}
+        for p in self.paths("tap:makeService"):
+            for e, _ in flat_events(p.events):
+                if e["k"] == "setattr" and e["obj"][0] == "obj" and \
+                        e["obj"][1] == "Server" and e["func"] == "Server.__init__":
+                    if ("Server", e["attr"]) in self.interp.container_attrs():
+                        continue   # a container the constructor creates itself
+                    role = namesmod.classify_server_value(e["value"], self.interp)
+                    if role is not None and slots.get(e["attr"], role) != role:
+                        raise AnalysisError("Server.%s receives values of two roles"
+                                            % e["attr"])
+                    if role is not None:
+                        slots[e["attr"]] = role
+        if not slots:
+            raise AnalysisError("anchor vanished: makeService does not reach "
+                                "Server.__init__ with recognisable handle/config values")
+        self.interp = Interp(self.repo, server_slots=slots)
+        self.interp.names.require_complete()
+        namesmod.CURRENT = self.interp.names
+        self.names = self.interp.names
         self._paths = {}
         self.timing = {}
         self._timer = None
 
     # -- generic runner --------------------------------------------------------
     def run_function(self, fi, self_term, args, no_inline=frozenset(),
-                     cells=None, cell_env=None):
+                     cells=None, cell_env=None, heap=None):
         it = self.interp
         it.no_inline = no_inline
         st = State()
+        if heap:
+            st.heap = dict(heap)
         root = Frame(fi, None, 0)
         st.envs[root.fid] = {}
         cframe = None
@@ -97,6 +126,10 @@ class Model(object):
             name = entry[3:]
             fi = repo.require_method("WebSocketServer", name)
             args = [("param", p) for p in fi.params[1:]]
+            if name == "onMessage" and args:
+                # the framework passes the inbound frame first, whatever the
+                # parameter is called
+                args[0] = ("param", "payload")
             paths = self.run_function(fi, WS, args)
         elif entry.startswith("server:"):
             name = entry[7:]
@@ -113,6 +146,10 @@ class Model(object):
             name = entry[3:]
             fi = repo.require_function("database", name)
             args = [("param", p) for p in fi.params]
+            if args:
+                # the public database entry points take the file path first,
+                # whatever the parameter is called
+                args[0] = ("param", "dbfile")
             paths = self.run_function(fi, None, args)
         elif entry.startswith("fn:"):
             mod, name = entry[3:].split(".", 1)
@@ -121,6 +158,9 @@ class Model(object):
             paths = self.run_function(fi, None, args)
         else:
             raise AnalysisError("unknown entry %s" % entry)
+        if entry == "ws:onMessage":
+            from .events import assign_handlers
+            assign_handlers(paths)
         self._paths[entry] = paths
         self.timing[entry] = time.time() - t0
         return paths
@@ -145,10 +185,31 @@ class Model(object):
         p, e = found[0]
         clos = [a for a in e["args"] if a[0] == "closure"]
         if not clos:
-            raise AnalysisError("TimerService callable is not a local closure")
+            # an instance of a class of the package with __call__
+            objs = [a for a in e["args"] if a[0] == "obj" and
+                    self.repo.method(a[1], "__call__") is not None]
+            if objs:
+                fi = self.repo.method(objs[0][1], "__call__")
+                self._timer_qualname = fi.qualname
+                self._timer_fi = fi
+                return self.run_function(fi, objs[0], [], heap=p.state.heap)
+            raise AnalysisError("TimerService callable is neither a local closure nor an "
+                                "instance of a class of the package with __call__")
         fi, defframe = self.interp.closures[clos[0][1]]
+        self._timer_qualname = fi.qualname
+        self._timer_fi = fi
         env = p.state.envs.get(defframe.fid, {})
         return self.run_function(fi, None, [], cells=defframe.func, cell_env=env)
+
+    def timer_fi(self):
+        """FuncInfo of the callable given to TimerService"""
+        self.paths("timer")
+        return self._timer_fi
+
+    def is_timer_entry(self, qualname):
+        """qualname (Path.entry) is the callable given to TimerService"""
+        self.paths("timer")
+        return qualname == self._timer_qualname
 
     WS_ENTRIES = ["ws:onConnect", "ws:onOpen", "ws:onMessage", "ws:onClose"]
     SERVER_ENTRIES = ["server:startService", "server:stopService"]
